@@ -25,8 +25,12 @@ impl<'a> EnumPruner<'a> {
             Err(_) => return None,
         };
 
-        let Some(variant_id) = index.variants.iter().position(|v| v == val_str) else {
-            return None;
+        let variant_id = match index.variants.iter().position(|v| v == val_str) {
+            Some(id) => id,
+            // No row can hold an unknown variant, so `!=` matches every row that has a value:
+            // use an out-of-range id so that no variant is excluded below.
+            None if matches!(op, CompareOp::Neq) => index.variants.len(),
+            None => return None,
         };
 
         let pruner = EnumZonePruner {
